@@ -77,6 +77,7 @@ pzgstrf_snode_dfs(
 	return mem_error;
     
     xlsub[jcol] = ito;
+    SLU_MT_VERIF_EVENT(SLU_EV_SUPER_OPEN, pnum, jcol, nsuper, ito, 0);
     lsub        = Glu->lsub;
     for (ifrom = 0; ifrom < nextl; ++ifrom)
 	lsub[ito++] = col_lsub[ifrom];
